@@ -31,7 +31,7 @@ theorem setTask_same {s : State} (h : InvNum s) {tid : Nat} {t : Task} (t' : Tas
   refine ⟨h.toWF.setTask tid t', ?_, ?_⟩
   · have := h.acc; unfold usage at *
     rw [cnt_setTask' _ h.toWF t' ht, h1]
-    show s.cur + s.phantom = sumInt (s.blocks.map Block.size) + _
+    show s.cur = sumInt (s.blocks.map Block.size) + _
     omega
   · have := h.cap; unfold discByHolder at *
     rw [cnt_setTask' _ h.toWF t' ht, h2]
@@ -41,31 +41,15 @@ theorem setTask_same {s : State} (h : InvNum s) {tid : Nat} {t : Task} (t' : Tas
 /-- a disconnect finished: the task goes away, `cur` drops by one -/
 theorem dropClosing_inv {s : State} (h : InvNum s) {tid : Nat} {t : Task} (ht : s.task tid = some t)
     (hc : t.closing = true) {s' : State}
-    (e1 : s'.max = s.max) (e2 : s'.cur = s.cur - 1) (e3 : s'.phantom = s.phantom)
+    (e1 : s'.max = s.max) (e2 : s'.cur = s.cur - 1)
     (e4 : s'.blocks = s.blocks) (e5 : s'.nextUid = s.nextUid) (e6 : s'.nextConn = s.nextConn)
     (e7 : s'.tasks = (s.dropTask tid).tasks) (e8 : s'.nextTask = s.nextTask) : InvNum s' := by
   refine ⟨(h.toWF.dropTask tid).frame e4 e5 e6 e7 e8, ?_, ?_⟩
   · have := h.acc; unfold usage at *
-    rw [e2, e3, e4, e7, cnt_dropTask _ h.toWF ht, hc]; simp only [↓reduceIte]; omega
+    rw [e2, e4, e7, cnt_dropTask _ h.toWF ht, hc]; simp only [↓reduceIte]; omega
   · have := h.cap; unfold discByHolder at *
     rw [e1, e2, e7, cnt_dropTask _ h.toWF ht]
     split <;> omega
-
-/-- `_transfer` died in its disconnect: `cur` drops, the target keeps a phantom `pending_conns` -/
-theorem dropPhantom_inv {s : State} (h : InvNum s) {tid : Nat} {t : Task} (ht : s.task tid = some t)
-    (h1 : t.closing = false) (h2 : t.byHolder = false) {s' : State}
-    (e1 : s'.max = s.max) (e2 : s'.cur = s.cur - 1) (e3 : s'.phantom = s.phantom + 1)
-    (e4 : s'.blocks = s.blocks) (e5 : s'.nextUid = s.nextUid) (e6 : s'.nextConn = s.nextConn)
-    (e7 : s'.tasks = (s.dropTask tid).tasks) (e8 : s'.nextTask = s.nextTask) : InvNum s' := by
-  refine ⟨(h.toWF.dropTask tid).frame e4 e5 e6 e7 e8, ?_, ?_⟩
-  · have := h.acc; unfold usage at *
-    rw [e2, e3, e4, e7, cnt_dropTask _ h.toWF ht, h1]
-    simp only [Bool.false_eq_true, ↓reduceIte]
-    omega
-  · have := h.cap; unfold discByHolder at *
-    rw [e1, e2, e7, cnt_dropTask _ h.toWF ht, h2]
-    simp only [Bool.false_eq_true, ↓reduceIte]
-    omega
 
 /-! ### `_connect` completion -/
 
@@ -100,7 +84,7 @@ theorem connOk_inv {s : State} (h : InvNum s) {u : Nat} {b0 : Block} (hb : s.fin
   have hs := sum_size_mod h.toWF hb f
   have := h.acc
   unfold usage at *
-  show s.cur + s.phantom = sumInt ((s.mod u f).blocks.map Block.size) + cnt Task.closing s.tasks
+  show s.cur = sumInt ((s.mod u f).blocks.map Block.size) + cnt Task.closing s.tasks
   rw [hs]
   simp only [f, Block.size, List.length_append, List.length_cons, List.length_nil]
   omega
@@ -117,7 +101,7 @@ theorem connFail_inv {s : State} (h : InvNum s) {u : Nat} {b0 : Block} (hb : s.f
       (fun b => { b with pending := b.pending - 1, failures := g b })
     have := h.acc
     unfold usage at *
-    show s.cur - 1 + s.phantom = sumInt ((({ s with cur := s.cur - 1 } : State).mod u _).blocks.map Block.size) + cnt Task.closing s.tasks
+    show s.cur - 1 = sumInt ((({ s with cur := s.cur - 1 } : State).mod u _).blocks.map Block.size) + cnt Task.closing s.tasks
     rw [hs]
     simp only [Block.size] at *
     omega
@@ -187,7 +171,7 @@ theorem taskStart_inv {s : State} (h : InvNum s) (tid : Nat) : InvNum (taskStart
         refine ⟨hwf1.setTask _ _, ?_, ?_⟩
         · have := h.acc
           unfold usage at *
-          show s.cur + s.phantom = sumInt ((s.mod u _).blocks.map Block.size) +
+          show s.cur = sumInt ((s.mod u _).blocks.map Block.size) +
             cnt Task.closing (s.tasks.map fun x => if x.1 == tid then (tid, .disc u c true hh) else x)
           rw [hk1]
           simp only [Task.closing, Bool.false_eq_true, ↓reduceIte]
@@ -210,15 +194,11 @@ theorem discDone_inv {s : State} (h : InvNum s) (tid : Nat) (ok : Bool) : InvNum
   unfold discDone
   split
   · rename_i u c hh ht
-    exact dropClosing_inv h ht rfl rfl rfl rfl rfl rfl rfl rfl rfl
+    exact dropClosing_inv h ht rfl rfl rfl rfl rfl rfl rfl rfl
   · rename_i c ht
-    exact dropClosing_inv h ht rfl rfl rfl rfl rfl rfl rfl rfl rfl
+    exact dropClosing_inv h ht rfl rfl rfl rfl rfl rfl rfl rfl
   · rename_i f c t hh ht
-    have h0 : InvNum { s with live := s.live.filter (· != c) } := h.frame rfl rfl rfl rfl rfl rfl rfl rfl
-    simp only
-    split
-    · exact setTask_same h0 _ ht rfl rfl
-    · exact dropPhantom_inv h ht rfl rfl rfl rfl rfl rfl rfl rfl rfl rfl
+    exact (setTask_same h (.xfer f c t 2 hh) ht rfl rfl).frame rfl rfl rfl rfl rfl rfl rfl
   · exact h.fail _
 
 /-! ### waiters -/
@@ -239,12 +219,12 @@ theorem pruneLoop_inv (n : Nat) : ∀ (p : Prune) s, InvNum s → InvNum (pruneL
           exact ih _ _ ht
         · rename_i s1 heq
           rw [heq] at ht
-          exact ht.frame rfl rfl rfl rfl rfl rfl rfl rfl
+          exact ht.frame rfl rfl rfl rfl rfl rfl rfl
       · exact foldl_inv _ (fun s c hs => hs.addTask _ rfl rfl) _ _ h
 
 theorem leaveWait_inv {s : State} (h : InvNum s) (id u : Nat) : InvNum (leaveWait s id u) := by
   unfold leaveWait
-  exact (h.modN u _ (by intro b; exact ⟨rfl, rfl, rfl⟩)).frame rfl rfl rfl rfl rfl rfl rfl rfl
+  exact (h.modN u _ (by intro b; exact ⟨rfl, rfl, rfl⟩)).frame rfl rfl rfl rfl rfl rfl rfl
 
 theorem popTop_inv {s : State} (h : InvNum s) (u : Nat) : InvNum (popTop s u) := by
   unfold popTop
@@ -254,7 +234,7 @@ theorem pruneCont_inv {s : State} (h : InvNum s) (id : Nat) (got : List Nat) (fu
     InvNum (pruneCont s id got fuel) := by
   unfold pruneCont
   split
-  · exact pruneLoop_inv _ _ _ (h.frame rfl rfl rfl rfl rfl rfl rfl rfl)
+  · exact pruneLoop_inv _ _ _ (h.frame rfl rfl rfl rfl rfl rfl rfl)
   · exact h.fail _
 
 theorem resume_inv {s : State} (h : InvNum s) (id : Nat) : InvNum (resume s id) := by
@@ -275,8 +255,8 @@ theorem resume_inv {s : State} (h : InvNum s) (id : Nat) : InvNum (resume s id) 
           · exact wakeNext_inv h _
         have h2 := leaveWait_inv h1 id w.block
         split
-        · exact h2.frame rfl rfl rfl rfl rfl rfl rfl rfl
-        · exact h2.frame rfl rfl rfl rfl rfl rfl rfl rfl
+        · exact h2.frame rfl rfl rfl rfl rfl rfl rfl
+        · exact h2.frame rfl rfl rfl rfl rfl rfl rfl
       · -- woken
         have h1 := leaveWait_inv h id w.block
         split
